@@ -115,6 +115,7 @@ static void exec_c11(const Plan& p, Outcome& out) {
           else { b.base = simmem::caller_buf(text.data(), n, places[pl], hostile, sizeof(hostile) - 1); b.data = b.base; }
           out.detail = "prefix " + std::to_string(n) + " placement " + std::to_string(pl);
           res[pl] = on_demand(b.data, n, jp, pl == 2);
+          if (n && memcmp(b.data, text.data(), n) != 0) violate("contract", "OnDemand:input_modified", "GetOnDemand wrote into the caller's buffer");
           b.free();
           g_c11_cases++;
         }
@@ -195,6 +196,9 @@ static void exec_c20(const Plan& p, Outcome& out) {
         model::ParseOut rt = model::parse(tt), rs = model::parse(st);
         CBuf tb(tt, simmem::PL_AUTO), sb(st, simmem::PL_AUTO);
         std::string res = UpdateLazy(StringView(tb.data, tt.size()), StringView(sb.data, st.size()));
+        // the arguments are views of the caller's text: it may be const, shared between both arguments, or used again
+        if (memcmp(tb.data, tt.data(), tt.size()) != 0 || memcmp(sb.data, st.data(), st.size()) != 0)
+          violate("model", "UpdateLazy:input_modified", "UpdateLazy wrote into the caller's " + std::string(memcmp(tb.data, tt.data(), tt.size()) ? "target" : "source") + " text");
         tb.release(); sb.release();
         drain_pending("UpdateLazy:ledger");
         if (simmem::live_count(simmem::LIBC)) violate("ledger", "UpdateLazy:leak", "UpdateLazy left " + std::to_string(simmem::live_count(simmem::LIBC)) + " block(s) allocated");
@@ -348,6 +352,7 @@ static void exec_c15(const Plan& p, Outcome& out) {
       } else if (op.kind == "UpdateLazy") {
         CBuf tb(op.S(0), simmem::PL_END), sb(op.S(1), simmem::PL_END);
         ob = UpdateLazy(StringView(tb.data, op.S(0).size()), StringView(sb.data, op.S(1).size()));
+        if (memcmp(tb.data, op.S(0).data(), op.S(0).size()) != 0 || memcmp(sb.data, op.S(1).data(), op.S(1).size()) != 0) violate("model", "UpdateLazy:input_modified", "UpdateLazy wrote into the caller's text");
         tb.free(); sb.free();
       } else if (op.kind == "BuildDump") {
         JVal v = canon_decode(op.S(0));
